@@ -108,6 +108,14 @@ pub open spec fn corrupted_by(out: Seq<char>, cs: Seq<Seq<char>>, d: Seq<bool>, 
     &&& (f_zero(dw) ==> forall|i: int| 0 <= i < cs.len() && ch_ws(cs[i]) ==> !#[trigger] d[i])
     &&& (f_zero(iw) ==> forall|i: int| 0 <= i < cs.len() && !ch_ws(cs[i]) ==> !#[trigger] d[i])
 }
+/// the decision bits a generator seeded with `seed` produces: draw i decides character i ("deterministic function of
+/// (text, seed)": the bits, hence the output, depend on nothing else)
+pub open spec fn seeded_bit(cs: Seq<Seq<char>>, seed: u64, iw: f64, dw: f64, i: int) -> bool {
+    if ch_ws(cs[i]) { flt(rng_draw(seed, i as nat), clamp01(dw)) } else { flt(rng_draw(seed, i as nat), clamp01(iw)) }
+}
+pub open spec fn seeded_bits(cs: Seq<Seq<char>>, seed: u64, iw: f64, dw: f64) -> Seq<bool> {
+    Seq::new(cs.len(), |i: int| seeded_bit(cs, seed, iw, dw, i))
+}
 pub open spec fn has_corruption(out: Seq<char>, cs: Seq<Seq<char>>, iw: f64, dw: f64) -> bool {
     exists|d: Seq<bool>| #[trigger] corrupted_by(out, cs, d, iw, dw)
 }
@@ -154,6 +162,8 @@ fn corrupt_whitespace(iw_p: f64, dw_p: f64, use_graphemes: bool, text: &str, inf
     ensures
         res.is_ok(),
         has_corruption(res.unwrap()@, chars_of(text, use_graphemes), iw_p, dw_p),
+        // determinism: the output is the corruption by the bits of the stream seeded with info.seed, and nothing else
+        corrupted_by(res.unwrap()@, chars_of(text, use_graphemes), seeded_bits(chars_of(text, use_graphemes), info.seed, iw_p, dw_p), iw_p, dw_p),
 {
     proof { axiom_f64_cmp(); }
     let ghost iw0 = iw_p;
@@ -174,6 +184,8 @@ fn corrupt_whitespace(iw_p: f64, dw_p: f64, use_graphemes: bool, text: &str, inf
                 iw_p == clamp01(iw0), dw_p == clamp01(dw0),
                 <f64 as vstd::std_specs::cmp::PartialOrdSpec<f64>>::obeys_partial_cmp_spec(),
                 d.len() == idx, vt_parts.len() == idx,
+                rng_state(rng) == (info.seed, idx as nat),
+                forall|i: int| 0 <= i < idx ==> #[trigger] d[i] == seeded_bit(ncs, info.seed, iw0, dw0, i),
                 forall|i: int| 0 <= i < idx ==> (#[trigger] vt_parts[i])@ == flat(pc(ncs, d, i)),
                 f_zero(dw0) ==> forall|i: int| 0 <= i < idx && ch_ws(ncs[i]) ==> !#[trigger] d[i],
                 f_zero(iw0) ==> forall|i: int| 0 <= i < idx && !ch_ws(ncs[i]) ==> !#[trigger] d[i],
@@ -218,6 +230,7 @@ fn corrupt_whitespace(iw_p: f64, dw_p: f64, use_graphemes: bool, text: &str, inf
         proof {
             lemma_flat_pieces(ncs, d, views(vt_parts@), ncs.len() as int);
             assert(corrupted_by(corrupted@, ncs, d, iw0, dw0));
+            assert(d =~= seeded_bits(ncs, info.seed, iw0, dw0));
         }
         Ok(corrupted)
     }
